@@ -541,6 +541,10 @@ func (db *DB) loadIndexFromDataFiles(fileIds []uint32, nonMergeFileId uint32) er
 			logRecord, pos, err := reader.NextLogRecord()
 			if err != nil {
 				if err == io.EOF {
+					// 去除文件末尾未写完的记录 (崩溃残留), 否则之后追加的记录将无法读取
+					if err := dataFile.Truncate(reader.ValidEnd()); err != nil {
+						return err
+					}
 					break
 				}
 				return err
